@@ -134,6 +134,8 @@ type Rig struct {
 	// Authorize decides every authorizer call (impersonation checks); default allow
 	Authorize func(a authorizer.Attributes) (authorizer.Decision, string, error)
 	AuthzLog  []string
+	// Real, when set, is asked instead of Authorize (e.g. the gateway's own webhook authorizer with its decision cache)
+	Real authorizer.Authorizer
 }
 
 type stubAuthn struct{ r *Rig }
@@ -154,9 +156,12 @@ type stubAuthz struct{ r *Rig }
 
 func (s stubAuthz) Authorize(ctx context.Context, a authorizer.Attributes) (authorizer.Decision, string, error) {
 	s.r.mu.Lock()
-	f := s.r.Authorize
+	f, real := s.r.Authorize, s.r.Real
 	s.r.AuthzLog = append(s.r.AuthzLog, fmt.Sprintf("%s %s/%s %s", a.GetVerb(), a.GetResource(), a.GetSubresource(), a.GetName()))
 	s.r.mu.Unlock()
+	if real != nil {
+		return real.Authorize(ctx, a)
+	}
 	if f == nil {
 		return authorizer.DecisionAllow, "", nil
 	}
@@ -167,7 +172,11 @@ func (s stubAuthz) Authorize(ctx context.Context, a authorizer.Attributes) (auth
 func New() *Rig { return NewWithManager(clusters.NewManager()) }
 
 // NewWithManager builds the gateway in front of the given manager (e.g. a real UpstreamClusterController).
-func NewWithManager(m clusters.Manager) *Rig {
+func NewWithManager(m clusters.Manager) *Rig { return NewWithOptions(m, false, false) }
+
+// NewWithOptions: accessLog / tracing are the proxy server's --enable-access-log / --enable-proxy-tracing options
+// (tracing additionally needs the cluster's feature gate Tracing=true).
+func NewWithOptions(m clusters.Manager, accessLog, tracing bool) *Rig {
 	r := &Rig{Manager: m, identity: &user.DefaultInfo{Name: "alice", Groups: []string{"system:authenticated"}}}
 	cfg := &genericapiserver.Config{}
 	cfg.Serializer = scheme.Codecs
@@ -179,7 +188,7 @@ func NewWithManager(m clusters.Manager) *Rig {
 	cfg.Authorization.Authorizer = stubAuthz{r}
 	cfg.HandlerChainWaitGroup = new(utilwaitgroup.SafeWaitGroup)
 	notFound := http.HandlerFunc(func(w http.ResponseWriter, req *http.Request) { http.Error(w, "not a proxy request", 404) })
-	h := app.VerifBuildProxyHandlerChain(m, false)(notFound, cfg)
+	h := app.VerifBuildProxyHandlerChainWith(m, accessLog, tracing)(notFound, cfg)
 	r.GW = httptest.NewServer(h)
 	r.Client = &http.Client{Transport: &http.Transport{DisableCompression: true, MaxIdleConnsPerHost: 64}, CheckRedirect: func(*http.Request, []*http.Request) error { return http.ErrUseLastResponse }}
 	return r
